@@ -184,3 +184,12 @@ Proof.
   constructor; [|apply IH]. destruct cur as [h|]; [|exact I].
   exists (mkReq m t h b). split; [reflexivity|]. apply parse_render_lemma.
 Qed.
+
+(* the Host line is a function of the PEER text alone (what getpeername reports,
+   the argument of EConnect): bracketed iff that text contains ':' *)
+Lemma host_header_peer h :
+  host_header h = if mem_N 58 h then lit "Host: [" ++ h ++ lit "]" else lit "Host: " ++ h.
+Proof. reflexivity. Qed.
+
+Lemma host_header_parses_to_peer h : wf_host h = true -> parse_hostline (host_header h) = Some h.
+Proof. apply parse_hostline_render. Qed.
